@@ -55,6 +55,8 @@ def tie_diffs():
         a, b = items(exp_l), items(cur_l)
         for k in sorted(set(a) | set(b)):
             if a.get(k) != b.get(k): diffs.append("layout:" + k)
+    if open(os.path.join(EXPECTED, "cfg_items.txt")).read() != open(os.path.join(GEN, "cfg_items.txt")).read():
+        diffs.append("cfg:items")
     exp_s = json.load(open(os.path.join(EXPECTED, "shapes.json")))
     cur_s = json.load(open(os.path.join(GEN, "shapes.json")))
     for k in sorted(set(exp_s) | set(cur_s)):
